@@ -17,8 +17,14 @@ use crate::world::*;
 
 #[derive(Clone, Debug, Serialize, Deserialize, PartialEq)]
 pub enum RAct {
-    /// transfer `role` to `to`, sent by its current holder
-    Transfer { role: String, to: String },
+    /// transfer `role` to `to`, sent by its current holder; `combo`: the same message also sets an unrelated,
+    /// valid configuration field (where the transfer is a field of an UpdateConfig message)
+    Transfer {
+        role: String,
+        to: String,
+        #[serde(default)]
+        combo: bool,
+    },
     TogglePause,
     ToggleOpen,
     Probe,
@@ -93,18 +99,21 @@ fn paused(w: &World) -> bool {
     w.store.0.borrow().get(&k).and_then(|v| serde_json::from_slice::<Value>(v).ok()).and_then(|j| j["pause"].as_bool()).unwrap_or(false)
 }
 
-fn transfer_msg(w: &World, role: &str, to: &str) -> (Addr, Value) {
+fn transfer_msg(w: &World, role: &str, to: &str, combo: bool) -> (Addr, Value) {
     let v0 = w.vamms[0].clone();
     let no = |k: &str, val: &str| {
         let mut m = json!({"base_asset_holding_cap": null, "open_interest_notional_cap": null, "toll_ratio": null, "spread_ratio": null, "fluctuation_limit_ratio": null, "margin_engine": null, "insurance_fund": null, "pricefeed": null, "spot_price_twap_interval": null});
         m[k] = json!(val);
+        if combo {
+            m[if k == "margin_engine" { "toll_ratio" } else { "spread_ratio" }] = json!("2000");
+        }
         json!({"update_config": m})
     };
     match role {
         "vamm_owner" => (v0, json!({"update_owner": {"owner": to}})),
         "vamm_engine" => (v0, no("margin_engine", to)),
         "vamm_ifund" => (v0, no("insurance_fund", to)),
-        "engine_owner" => (w.engine.clone(), json!({"update_config": {"owner": to, "insurance_fund": null, "fee_pool": null, "initial_margin_ratio": null, "maintenance_margin_ratio": null, "partial_liquidation_ratio": null, "liquidation_fee": null}})),
+        "engine_owner" => (w.engine.clone(), json!({"update_config": {"owner": to, "insurance_fund": null, "fee_pool": null, "initial_margin_ratio": null, "maintenance_margin_ratio": null, "partial_liquidation_ratio": null, "liquidation_fee": if combo { json!("40000") } else { Value::Null }}})),
         "pauser" => (w.engine.clone(), json!({"update_pauser": {"pauser": to}})),
         "ifund_owner" => (w.ifund.clone(), json!({"update_owner": {"owner": to}})),
         "feepool_owner" => (w.fee_pool.clone(), json!({"update_owner": {"owner": to}})),
@@ -285,7 +294,10 @@ impl Model for RoleModel {
             }
             for t in ts {
                 if s.roles.cur[r] != t {
-                    a.push(RAct::Transfer { role: r.to_string(), to: t });
+                    a.push(RAct::Transfer { role: r.to_string(), to: t.clone(), combo: false });
+                    if matches!(r, "vamm_engine" | "vamm_ifund" | "engine_owner") {
+                        a.push(RAct::Transfer { role: r.to_string(), to: t, combo: true });
+                    }
                 }
             }
         }
@@ -299,9 +311,9 @@ impl Model for RoleModel {
         let mut roles = s.roles.clone();
         match a {
             RAct::Probe => {}
-            RAct::Transfer { role, to } => {
+            RAct::Transfer { role, to, combo } => {
                 let signer = transfer_signer(&roles, role);
-                let (addr, msg) = transfer_msg(w, role, to);
+                let (addr, msg) = transfer_msg(w, role, to, *combo);
                 let o = w.exec_json(&signer, &addr, &msg);
                 out.executions += 1;
                 if !o.ok {
